@@ -33,6 +33,9 @@ CHECKS = {
  'C19': dict(text="Machine-checked Lean 4 proofs about a token-level model of __str__ and of parse_multivector's state machine (the if/elif chain token for token, with error positions): parse(print(terms)) returns exactly the accumulated coefficients for every list of integer terms of any length, blade indices and scalar index; the result is independent of term order; whitespace/parentheses never change the state; each malformed pattern named in the property (two coefficients in a row, dangling sign/wedge, unknown blade) reaches the SyntaxError branch at the offending token; printing with p decimals moves a coefficient by at most half a unit of the print precision. Tied to /repo by comparing the real tokenizer's token stream of str(M) and the real parse results and SyntaxError offsets with the model, and by running str->parse (ints exactly, floats to half a unit for precisions 1..12, sub-eps dropped, whitespace and order variants), MultiVector(layout, string=...), and eval(repr(M)) with pretty-printing off (layout, dtype, coefficients) for default/custom/prefix names and predefined layouts.",
              technique="Lean 4 proof (induction over the printed term list against the parser state machine) + tokenizer/parser correspondence",
              design="§6 C19"),
+ 'C20': dict(text="Machine-checked Lean 4 proofs about a tensor/record model of both file formats: .T is an involution; read(write flags a metric names) = (a, metric, names, no support) for every shape (zero-sized axes included) and all four (compression, transpose) combinations; the compression flag never enters the read path; for JSON the nested list has the array's elements in row-major order and its inferred shape is the array's shape when no axis is empty, with a proved counterexample for an empty axis (the known finding); a signature mismatch on load is a ValueError. Tied to /repo by writing and reading real .ga (h5py) and JSON files for shapes with 0..3 leading axes incl. empty, int/float dtypes, degenerate signatures, all flag combinations, comparing what is stored (shape, flags) with the model's record and what is read back with what was written; MVArray.save -> load_ga_file equality and the mismatch error.",
+             technique="Lean 4 proof (axis-reversal involution, record round trip, nested-list induction) + file-record correspondence",
+             design="§6 C20"),
 }
 
 def main():
